@@ -65,6 +65,7 @@ class Run:
         self.props = set(explorer.props)
         self.div_notes = []
         self.facts = []  # ground facts available as hypotheses for later obligations
+        self.int_defs = []  # (k, x): k = int(x), x >= 0
 
     # ---- names
     def fresh(self, base):
